@@ -141,6 +141,13 @@ def _run(ctx):
             args += [2000, wpath]
             ctx.cov["transition_coverage"] = dict(pairs=npairs, histories_run=nused)
     data = vlib.run_harness("c10.py", args, timeout=20000)
+    # the core data every table has from its constructor, mass.init and density.init (tools/harness/c10core.py)
+    try:
+        cd = vlib.run_harness("c10core.py", [ctx.seed, ctx.tier], timeout=3000)
+        data["direct_fails"].extend(cd["direct_fails"])
+        ctx.cov["core_data"] = cd["stats"]
+    except Exception as e:  # noqa
+        ctx.note("core-data stream did not run: %s" % str(e)[:300])
     cases, meta, st = data["cases"], data["meta"], data["stats"]
     ctx.cov["rule"] = ("one fresh interpreter per history; per group sequences (length <= 3%s) over {public touch, init(p1), "
                        "init(p2), read p1, assign p1, mutate p1 (covered / uncovered atom), read p2} packed one group per slot; "
@@ -195,6 +202,14 @@ def _run(ctx):
 
 def replay(path):
     doc = json.load(open(path))
+    if ":core" in doc.get("signature", ""):
+        cd = vlib.run_harness("c10core.py", [0, "quick"], timeout=3000)
+        hit = [d for d in cd["direct_fails"] if d["signature"] == doc["signature"]]
+        if hit:
+            print("REPRODUCED: %s" % hit[0]["what"])
+            return 1
+        print("not reproduced on the current tree")
+        return 0
     if not doc.get("history"):
         print("replay: %s records an obligation (%s); re-run ./check C10 %s" % (path, doc.get("what", "")[:200], doc.get("tier", "quick")))
         return 0
